@@ -15,6 +15,6 @@ CONSTANTS
   UseCheckpoint = FALSE
   Batch = 1
   IgnoreTaints = FALSE
-INVARIANTS NoBad_EpochConvention
+INVARIANTS NoBadAck_HWFallback
 VIEW MCView
 CHECK_DEADLOCK FALSE
